@@ -144,6 +144,23 @@ func newSdbFixture(t *testing.T, s *itutil.ChainIntegrationTestSuite) *sdbFixtur
 	add("vest_expired", mkVest("ve", 60, blockTime.Add(-24*time.Hour), 60))
 	// end time between the block time and the wall clock: protected as of the block time
 	add("vest_between", mkVest("vb", 10, blockTime.Add(48*time.Hour), 0))
+	// schedules that have not STARTED yet (continuous / periodic): everything is locked, the period has certainly not ended
+	{
+		a := mk("vfc")
+		baseAcc := ak.NewAccountWithAddress(ctx, a.Bytes()).(*authtypes.BaseAccount)
+		bva, err := vestingtypes.NewBaseVestingAccount(baseAcc, sdk.NewCoins(sdk.NewInt64Coin(evmDenom, 40)), blockTime.Add(72*time.Hour).Unix())
+		require.NoError(t, err)
+		ak.SetAccount(ctx, vestingtypes.NewContinuousVestingAccountRaw(bva, blockTime.Add(24*time.Hour).Unix()))
+		add("vest_future_continuous", a)
+		b := mk("vfp")
+		baseAcc = ak.NewAccountWithAddress(ctx, b.Bytes()).(*authtypes.BaseAccount)
+		bva, err = vestingtypes.NewBaseVestingAccount(baseAcc, sdk.NewCoins(sdk.NewInt64Coin(evmDenom, 30)), blockTime.Add(96*time.Hour).Unix())
+		require.NoError(t, err)
+		ak.SetAccount(ctx, vestingtypes.NewPeriodicVestingAccountRaw(bva, blockTime.Add(48*time.Hour).Unix(),
+			vestingtypes.Periods{{Length: int64(48 * 3600), Amount: sdk.NewCoins(sdk.NewInt64Coin(evmDenom, 30))}}))
+		fund(b, evmDenom, 30)
+		add("vest_future_periodic", b)
+	}
 
 	sort.Slice(ents, func(i, j int) bool { return bytes.Compare(ents[i].addr.Bytes(), ents[j].addr.Bytes()) < 0 })
 	for i, e := range ents {
@@ -180,6 +197,10 @@ func (f *sdbFixture) worldLines(ctx sdk.Context, p *hx.Proto) {
 				kind = "m"
 			case *vestingtypes.DelayedVestingAccount:
 				kind, end, locked = "v", v.EndTime, v.OriginalVesting.AmountOf(f.denoms[0]).String()
+			case *vestingtypes.ContinuousVestingAccount: // fixture: schedule starts after the block time, so everything is locked
+				kind, end, locked = "v", v.EndTime, v.LockedCoins(ctx.BlockTime()).AmountOf(f.denoms[0]).String()
+			case *vestingtypes.PeriodicVestingAccount:
+				kind, end, locked = "v", v.EndTime, v.LockedCoins(ctx.BlockTime()).AmountOf(f.denoms[0]).String()
 			}
 			p.Emit(fmt.Sprintf("w.acc %d %s %d %d %d %s", i, kind, acc.GetSequence(), acc.GetAccountNumber(), end, locked), "ok")
 		}
@@ -298,7 +319,7 @@ func (f *sdbFixture) dump(db evmvm.CStateDB, ctx sdk.Context, nsnaps int) string
 			switch acc.(type) {
 			case sdk.ModuleAccountI:
 				kind = "m"
-			case *vestingtypes.DelayedVestingAccount:
+			case *vestingtypes.DelayedVestingAccount, *vestingtypes.ContinuousVestingAccount, *vestingtypes.PeriodicVestingAccount:
 				kind = "v"
 			}
 		}
@@ -381,7 +402,7 @@ func runSdbCases(t *testing.T, f *sdbFixture, rng *hx.Rng, p *hx.Proto, nOps int
 	}
 	// addresses on which most operations panic (protected / block-listed); picked less often so
 	// that cases get deep, but still often enough to exercise every guard
-	risky := map[string]bool{"fee_collector": true, "evm_module": true, "vest_unexpired": true, "vest_between": true}
+	risky := map[string]bool{"fee_collector": true, "evm_module": true, "vest_unexpired": true, "vest_between": true, "vest_future_continuous": true, "vest_future_periodic": true}
 	pickAddr := func() int {
 		for {
 			a := rng.Intn(na)
@@ -584,4 +605,3 @@ func runSdbCases(t *testing.T, f *sdbFixture, rng *hx.Rng, p *hx.Proto, nOps int
 		}
 	}
 }
-
